@@ -745,6 +745,27 @@ type stageFn func(p *propCfg, bin, work, tier string, seed int64, hooks bool, op
 var stages = map[string]stageFn{}
 
 func init() {
+	// C16: the documented JSONSCHEMAGODEBUG=typeschemasnull=1 configuration, in a child process.
+	stages["C16"] = func(p *propCfg, bin, work, tier string, seed int64, hooks bool, openKeys []string, cov map[string]any) ([]string, string) {
+		checks := 2500
+		if tier == "thorough" {
+			checks = 60000
+		}
+		r := runShard(p, bin, work, tier, seed, 200, checks, 20*time.Minute, hooks, openKeys, []string{"JSONSCHEMAGODEBUG=typeschemasnull=1"}, p.Test)
+		if r.exit != 0 {
+			if _, err := os.Stat(r.failFile); err == nil {
+				dst := filepath.Join(verifDir, "replays", fmt.Sprintf("%s-%s-seed%d-typeschemasnull.json", p.ID, tier, seed))
+				_ = copyFile(r.failFile, dst)
+				fmt.Printf("typeschemasnull=1 run failed:\n%s\n", tail(r.log, 30))
+				return []string{dst}, ""
+			}
+			return nil, fmt.Sprintf("typeschemasnull-run-exit-%d", r.exit)
+		}
+		if r.partial != nil {
+			cov["typeschemasnull_config_cases"] = r.partial.Cases
+		}
+		return nil, ""
+	}
 	// C14 (3): the same seed in several fresh processes (fresh hash seeds, fresh map orders);
 	// per-case digests (case hash, result hash) must agree.
 	stages["C14"] = func(p *propCfg, bin, work, tier string, seed int64, hooks bool, openKeys []string, cov map[string]any) ([]string, string) {
